@@ -1,14 +1,14 @@
 //go:build verif
 
 // gen_security renders Olla/Gen/Security.lean by RUNNING the compiled admission code:
-//   * the middleware the production wiring mounts on proxy routes
+//   - the middleware the production wiring mounts on proxy routes
 //     (handlers.NewApplication(...).GetSecurityAdapters().CreateChainMiddleware()) in front of a
 //     counting handler: which status a rate-limit refusal / an oversize Content-Length gets, whether
 //     two peers that differ only in the port share a bucket, whether a chunked body is cut off;
-//   * the same four facts for the stand-alone middlewares of internal/adapter/security
+//   - the same four facts for the stand-alone middlewares of internal/adapter/security
 //     (RateLimitValidator.CreateMiddleware / SizeValidator.CreateMiddleware), which are NOT mounted;
-//   * which registered routes are guarded at all (RouteInfo.IsProxy);
-//   * the translator handler's answer to an oversize body.
+//   - which registered routes are guarded at all (RouteInfo.IsProxy);
+//   - the translator handler's answer to an oversize body.
 package main
 
 import (
@@ -18,6 +18,7 @@ import (
 	"net/http"
 	"net/http/httptest"
 	"os"
+	"sort"
 	"strings"
 
 	"github.com/thushan/olla/internal/adapter/security"
@@ -98,6 +99,65 @@ func main() {
 		_, ad := security.NewSecurityServices(cfg, stats.NewCollector(log), log)
 		return ad.CreateChainMiddleware(), ad.Stop
 	})
+	// what the mounted chain (rate limit, size limit, request logging, access logging) does to the request it hands
+	// on: nothing — every header the client sent, with every line, and the URL are what the next handler sees
+	var chainChanges []string
+	{
+		cfg := config.DefaultConfig()
+		cfg.Server.RateLimits.PerIPRequestsPerMinute = 0
+		cfg.Server.RateLimits.GlobalRequestsPerMinute = 0
+		svc, ad := security.NewSecurityServices(cfg, stats.NewCollector(log), log)
+		app, err := handlers.NewApplication(context.Background(), cfg, nil, nil, nil, nil, nil, svc.Chain, log)
+		if err != nil {
+			fmt.Fprintln(os.Stderr, "gen_security: NewApplication:", err)
+			os.Exit(3)
+		}
+		long := strings.Repeat("0123456789abcdef", 40)
+		sent := http.Header{}
+		for _, n := range []string{"X-Request-ID", "X-Correlation-ID", "Traceparent", "X-Session-ID", "Idempotency-Key", "Referer", "Accept-Language", "X-Client-Version", "Authorization", "X-Custom"} {
+			sent.Add(n, "first-"+n)
+			sent.Add(n, "second-"+n)
+			sent.Add(n, long)
+		}
+		target := "/olla/proxy/v1/chat/completions?api_key=sk-1&access_token=t%20t&password=p&x=a+b&y=%2e%2e#frag"
+		var got http.Header
+		var gotURI, gotQuery string
+		next := http.HandlerFunc(func(w http.ResponseWriter, r *http.Request) {
+			got, gotURI, gotQuery = r.Header.Clone(), r.URL.Path, r.URL.RawQuery
+			w.WriteHeader(200)
+		})
+		req := httptest.NewRequest("POST", target, strings.NewReader("{}"))
+		for k, v := range sent {
+			req.Header[k] = append([]string(nil), v...)
+		}
+		wantPath, wantQuery := req.URL.Path, req.URL.RawQuery
+		app.GetSecurityAdapters().CreateChainMiddleware()(next).ServeHTTP(httptest.NewRecorder(), req)
+		ad.Stop()
+		if got == nil {
+			chainChanges = append(chainChanges, "request did not reach the next handler")
+		} else {
+			for k, v := range sent {
+				if fmt.Sprint(got[k]) != fmt.Sprint(v) {
+					chainChanges = append(chainChanges, "header:"+k)
+				}
+			}
+			if gotURI != wantPath {
+				chainChanges = append(chainChanges, "path")
+			}
+			if gotQuery != wantQuery {
+				chainChanges = append(chainChanges, "query")
+			}
+		}
+		sort.Strings(chainChanges)
+	}
+	{
+		q := make([]string, len(chainChanges))
+		for i, x := range chainChanges {
+			q[i] = vlib.LeanStr(x)
+		}
+		f.Def("chainRequestChanges", "List String", vlib.LeanList(q),
+			"what the mounted middleware chain changed in a probe request (headers with three lines each incl. a 640-byte one, credential-looking query parameters) before the next handler saw it")
+	}
 	row := func(x facts) string {
 		return vlib.LeanTuple(vlib.LeanNat(uint64(x.rateStatus)), vlib.LeanNat(uint64(x.sizeStatus)), vlib.LeanBool(x.portInKey), vlib.LeanBool(x.chunkedCut))
 	}
